@@ -32,6 +32,8 @@ CFG = dict(
         "reluctant quantifiers switch the whole engine to emit-first-completion; for them and when a row-limit guard is set only the "
         "validity clauses of the oracle apply (valid match, consecutive rows, SKIP rule, MATCH_NUMBER), not leftmost/longest/complete",
         "the order in which Flush lists partitions (LRU order) is not modelled; flush output is compared per partition",
+        "not generated / not modelled: SUBSET, FINAL/RUNNING modifiers, NEXT(), MEASURES other than MATCH_NUMBER, CLASSIFIER, "
+        "FIRST/LAST(id), COUNT(*), SUM(id), SUM(v), LAST(p); epoch-sized timestamps (normalizeTs unit guessing); WHERE/JOIN in front of the engine",
     ],
 )
 META = dict(
